@@ -51,8 +51,9 @@ def check_chain(decays0, naming, patterns):
         return DecayChain(mother, modes)
 
     orders = list(itertools.permutations(names)) if len(names) <= 3 else [tuple(names), tuple(reversed(names))]
+    default_string = None
     for pi in patterns:
-        DescriptorFormat.config = {"decay_pattern": DEFAULT[0], "sub_decay_pattern": DEFAULT[1]}
+        DescriptorFormat.set_config(*DEFAULT)
         strings = set()
         try:
             for order in orders:
@@ -64,20 +65,27 @@ def check_chain(decays0, naming, patterns):
                         if dc.to_string() != s:
                             strings.add(s + " (second call differs)")
                     else:
+                        before = dc.to_string()
                         with DescriptorFormat(*PATTERNS[pi]):
                             s = dc.to_string()
-                        if dc.to_string() != dc.to_string():
-                            pass
+                        after = dc.to_string()
+                        if before != after or (default_string is not None and after != default_string):
+                            strings.add(f"{s} [default rendering changed by the pattern block: {before!r} -> {after!r}]")
                     strings.add(s)
         except Exception as e:  # noqa: BLE001
             fails.append((f"to_string-exception:{type(e).__name__}", f"{e!r} for chain {plain(decays)} pattern {PATTERNS[pi]}"))
             continue
         finally:
-            DescriptorFormat.config = {"decay_pattern": DEFAULT[0], "sub_decay_pattern": DEFAULT[1]}
+            DescriptorFormat.set_config(*DEFAULT)
+        if any("[default rendering changed" in x for x in strings):
+            fails.append(("default-rendering-changed-by-pattern-block", f"chain {plain(decays)}, patterns {PATTERNS[pi]}: {sorted(strings)[:2]}"))
+            continue
         if len(strings) != 1:
             fails.append(("order-dependent", f"chain {plain(decays)} renders differently for different input orders: {sorted(strings)[:3]}"))
             continue
         s = next(iter(strings))
+        if pi == 0:
+            default_string = s
         try:
             got = SYNTAX[pi].read(s)
         except Exception as e:  # noqa: BLE001
